@@ -12,10 +12,10 @@ import (
 
 // Workload generates intents at "intent level": concrete arguments, no signatures.
 type Workload struct {
-	g   *Gen
-	r   *Rng
-	v   *View // refreshed each height
-	ops map[string]func(h int64) (*Intent, bool)
+	g    *Gen
+	r    *Rng
+	v    *View // refreshed each height
+	ops  map[string]func(h int64) (*Intent, bool)
 	uniq int64
 	// knowledge the clients keep
 	depositIDs  []uint64 // deposit ids someone has reported
@@ -85,7 +85,7 @@ func (w *Workload) intentsFor(h int64, p *HeightPlan) []Delivery {
 	if g.OneTx {
 		n = 1
 	}
-	if g.Quiet {
+	if g.Quiet || g.Idle() {
 		n = 0
 	}
 	names := make([]string, 0, len(g.P.OpW))
@@ -96,6 +96,31 @@ func (w *Workload) intentsFor(h int64, p *HeightPlan) []Delivery {
 	weights := make([]int, len(names))
 	for i, k := range names {
 		weights[i] = g.P.OpW[k]
+	}
+	if g.Long {
+		over := map[string]int{}
+		if h <= 70 {
+			over = map[string]int{"op_reporter": 30, "deposit_report": 60, "select_reporter": 10}
+		} else {
+			over = map[string]int{"claim_deposits": 60, "deposit_report": 5, "propose_dispute": 5, "request_attestations": 5}
+		}
+		for i, k := range names {
+			if w2, ok := over[k]; ok {
+				weights[i] = w2
+			}
+		}
+		for k, w2 := range over {
+			found := false
+			for _, nme := range names {
+				if nme == k {
+					found = true
+				}
+			}
+			if !found {
+				names = append(names, k)
+				weights = append(weights, w2)
+			}
+		}
 	}
 	var out []Delivery
 	for i := 0; i < n; i++ {
